@@ -238,7 +238,8 @@ def plain(cls, obj) -> dict:
                 raise Shape(f"{where}: {type(v).__name__}")
             tree[f.name] = int(v)
         elif f.kind == "enum":
-            if not isinstance(v, f.arg):
+            # weakest reading of "equal": the member itself or a plain int of the same value (IntEnum(1) == 1)
+            if not isinstance(v, int) or isinstance(v, bool):
                 raise Shape(f"{where}: {type(v).__name__} is not {f.arg.__name__}")
             tree[f.name] = int(v)
         elif f.kind == "str":
